@@ -220,6 +220,13 @@ TrUnmarshal ==
      /\ Step(Verdict(G, InputMod(e), (e.entry \in DevKinds)),
              DecClass("dec", DecEntry({}, e.entry, buf[e.b]).st, res.ok)
              \cup (IF prov[e.b].k = e.entry THEN {"roundtrips"} ELSE {}), e.entry)
+\* decoding into a receiver that already decoded something: only totality is judged (C01)
+TrUnmarshal2 ==
+  /\ e.op = "unmarshal2"
+  /\ LET res == [panic |-> e.panic, slow |-> e.slow, alloc |-> e.alloc]
+         G(D) == (IF res.panic THEN {"C01:reused_receiver_panic"} ELSE {})
+                 \cup (IF res.alloc > AllocBound(Len(buf[e.b]) + Len(e.first)) THEN {"C01:reused_receiver_alloc"} ELSE {}) IN
+     /\ UNCHANGED vars /\ Step(Verdict(G, InputMod(e), FALSE), {"dec_undefined"}, e.entry)
 TrDatagram ==
   /\ e.op = "datagram"
   /\ LET res == DecRes(e)
@@ -254,7 +261,7 @@ TrUnitEnc ==
 TraceNext ==
   /\ l <= Len(Trace)
   /\ \/ TrBuild \/ TrSetBuf \/ TrPick \/ TrReset \/ TrMarshal \/ TrSize \/ TrDest \/ TrHeader \/ TrString
-     \/ TrUnmarshal \/ TrDatagram \/ TrUnitDec \/ TrUnitEnc \/ TrValidate \/ TrCname \/ TrNack \/ TrRemb \/ TrTables \/ TrLen \/ TrMarshalTo
+     \/ TrUnmarshal \/ TrUnmarshal2 \/ TrDatagram \/ TrUnitDec \/ TrUnitEnc \/ TrValidate \/ TrCname \/ TrNack \/ TrRemb \/ TrTables \/ TrLen \/ TrMarshalTo
 
 TraceSpec == TraceInit /\ [][TraceNext]_tvars
 
